@@ -479,7 +479,7 @@ Section Sem.
     if mode_eqb m Sync && has_some avobj then OAssert else
     if negb (isinstance (ckind E) x TDict) then OInvalid (Invalid (TypeErr TDict) x self) else
     match as_dict x with
-    | None => ORaise ExOther
+    | None => OInvalid (Invalid (TypeErr TDict) x self)   (* not a mapping at all *)
     | Some data =>
         if strict && has_unknown_key (map fst keys) data
         then OInvalid (Invalid (ExtraKeysErr (map fst keys)) x self)
